@@ -38,6 +38,16 @@ pub fn set_refuse_above(n: usize) {
     REFUSE.store(n, Ordering::Relaxed);
 }
 
+/// Optional callback invoked (once per refused request, not re-entrantly)
+/// just before a request is refused, so that an engine can record who asked.
+static ON_REFUSE: AtomicUsize = AtomicUsize::new(0);
+static IN_REFUSE_HOOK: AtomicBool = AtomicBool::new(false);
+
+#[allow(dead_code)]
+pub fn set_on_refuse(f: fn(usize)) {
+    ON_REFUSE.store(f as usize, Ordering::Relaxed);
+}
+
 #[inline]
 fn note(size: usize) -> bool {
     if !ACTIVE.load(Ordering::Relaxed) {
@@ -51,7 +61,17 @@ fn note(size: usize) -> bool {
         // Safety: the pointer refers to a live shared mapping (child.rs).
         unsafe { (*sh).fetch_max(size as u64, Ordering::Relaxed) };
     }
-    size <= REFUSE.load(Ordering::Relaxed)
+    if size <= REFUSE.load(Ordering::Relaxed) {
+        return true;
+    }
+    let hook = ON_REFUSE.load(Ordering::Relaxed);
+    if hook != 0 && !IN_REFUSE_HOOK.swap(true, Ordering::SeqCst) {
+        // Safety: only `set_on_refuse` stores here, and it stores a `fn(usize)`.
+        let f: fn(usize) = unsafe { std::mem::transmute(hook) };
+        f(size);
+        IN_REFUSE_HOOK.store(false, Ordering::SeqCst);
+    }
+    false
 }
 
 unsafe impl GlobalAlloc for MonAlloc {
